@@ -240,8 +240,8 @@ PLAN["C07"] = {
     "assumptions": COMMON_ASSUMPTIONS + ["16-bit symbol encoding: the domains use at most 4 symbols"],
     "claim": "Every pair of the finite domains through every implemented BDD inclusion selection in both encodings; exhaustive within bounds.",
     "technique": "bounded exhaustive enumeration of automata pairs x BDD encodings x InclParam configurations against a reference subset construction",
-    "quick": [("rel", "c07.unimpl"), ("rel", "c07.n2s2k2"), ("rel", "c07.n2s3k2"), ("rel", "c07.trim.n2s2.a3b3"), ("rel", "c07.trim.n3s2.a2b3")],
-    "thorough": [("rel", "c07.unimpl"), ("rel", "c07.n2s2k3"), ("rel", "c07.n2s3k2"), ("rel", "c07.trim.n2s2.a4b4"), ("rel", "c07.trim.n3s2.a3b3"), ("rel", "c07.trim.n3s2.a3b4"), ("rel", "c07.trim.n2s3.a4b4")],
+    "quick": [("rel", "c07.unimpl"), ("rel", "c07.n2s2k2"), ("rel", "c07.n2s3k2"), ("rel", "c07.trim.n2s2.a3b3"), ("rel", "c07.trim.n3s2.a2b3"), ("rel", "c07.trim.n3ah.a2b3")],
+    "thorough": [("rel", "c07.unimpl"), ("rel", "c07.n2s2k3"), ("rel", "c07.n2s3k2"), ("rel", "c07.trim.n2s2.a4b4"), ("rel", "c07.trim.n3s2.a3b3"), ("rel", "c07.trim.n3s2.a3b4"), ("rel", "c07.trim.n2s3.a4b4"), ("rel", "c07.trim.n3ah.a2b3"), ("rel", "c07.trim.n3ah.a3b4"), ("rel", "c07.trim.n4ag.a2b4")],
     "require": {"all": ["expect_included", "expect_not_included", "nonemptyA_included", "class_binary_rules_both_trimmed", "unimpl_calls"]},
 }
 
@@ -257,8 +257,8 @@ PLAN["C08"] = {
     "assumptions": HIST_ASSUMPTIONS + ["the process-wide symbolic alphabet is pre-registered in a fixed order (a, b, g) once per worker so that symbol codes, and with them the state keys, do not depend on earlier cases"],
     "claim": "All operation histories up to the stated depth over BDD automata that share transition tables, plus exhaustive single calls over the finite domains.",
     "technique": "explicit-state breadth-first search over operation histories of BDD automata sharing transition tables + bounded exhaustive enumeration of single calls",
-    "quick": [("rel", "c08.single.n2s2k3"), ("rel", "c08.single.n3s3pk3"), ("rel", "c08.pairs.n2s2k2"), ("rel", "c08.hist.bu.d4"), ("rel", "c08.hist.td.d4")],
-    "thorough": [("rel", "c08.single.n2s3k4"), ("rel", "c08.single.n3s3pk3"), ("rel", "c08.pairs.n2s2k3"), ("rel", "c08.pairs.n2s3k2"), ("rel", "c08.hist.bu.d5"), ("rel", "c08.hist.td.d5"), ("asan", "c08.hist.bu.d3"), ("asan", "c08.hist.td.d3")],
+    "quick": [("rel", "c08.single.n2s2k3"), ("rel", "c08.single.n3s3pk3"), ("rel", "c08.pairs.n2s2k2"), ("rel", "c08.pairs.trim.n3s3pk3"), ("rel", "c08.hist.bu.d4"), ("rel", "c08.hist.td.d4")],
+    "thorough": [("rel", "c08.single.n2s3k4"), ("rel", "c08.single.n3s3pk3"), ("rel", "c08.pairs.n2s2k3"), ("rel", "c08.pairs.n2s3k2"), ("rel", "c08.pairs.trim.n3s3pk3"), ("rel", "c08.pairs.trim.n3s3pk4"), ("rel", "c08.hist.bu.d5"), ("rel", "c08.hist.td.d5"), ("asan", "c08.hist.bu.d3"), ("asan", "c08.hist.td.d3")],
     "require": {"all": ["transitions_into_sharing_states", "intersection_nonempty", "class_useless_states", "lang_nonempty"]},
 }
 
@@ -293,9 +293,36 @@ PLAN["C19"] = {
                                         "shifts, 7q+3, reversed rule order) on the corpus; no randomness", "corpus checks are metamorphic (the library's own inclusion is the judge); small-scope checks use the reference model"],
     "claim": "Complete over all renamings/orders for the small domains; complete over the finite shipped corpus for the listed laws and the listed renaming family.",
     "technique": "bounded exhaustive enumeration of automata x all state bijections x symbol permutations x insertion orders; exhaustive pair/triple enumeration over the finite shipped corpus (metamorphic laws)",
-    "quick": [("rel", "c19.small.single.n3k3"), ("rel", "c19.small.pairs.n2t3"), ("rel", "c19.corpus.small.single"), ("rel", "c19.corpus.small.pairs"), ("rel", "c19.corpus.smaller.single"),
+    "quick": [("rel", "c19.small.single.n3k3"), ("rel", "c19.small.pairs.n2t3"), ("rel", "c19.small.pairs.trim.n2s3.a2b3"), ("rel", "c19.small.pairs.trim.n2s2.a3b3"), ("rel", "c19.corpus.small.single"), ("rel", "c19.corpus.small.pairs"), ("rel", "c19.corpus.smaller.single"),
               ("rel", "c19.corpus.smaller.triples"), ("rel", "c19.corpus.moderate.single")],
-    "thorough": [("rel", "c19.small.single.n3k3"), ("rel", "c19.small.pairs.n2k2"), ("rel", "c19.corpus.small.single"), ("rel", "c19.corpus.small.pairs"), ("rel", "c19.corpus.smaller.single"),
+    "thorough": [("rel", "c19.small.single.n3k3"), ("rel", "c19.small.pairs.n2k2"), ("rel", "c19.small.pairs.trim.n2s3.a3b3"), ("rel", "c19.small.pairs.trim.n2s2.a3b5"), ("rel", "c19.corpus.small.single"), ("rel", "c19.corpus.small.pairs"), ("rel", "c19.corpus.smaller.single"),
                  ("rel", "c19.corpus.smaller.triples"), ("rel", "c19.corpus.moderate.single"), ("rel", "c19.corpus.smaller.pairs")],
     "require": {"all": ["variants", "calls", "expect_not_included", "equivalence_checks", "variant_calls", "law_checks", "transitivity_triples_with_both_premises"]},
+}
+
+_C20_ASAN_QUICK = ["c01.n2s2k2", "c01.trim.n2s3.a3b3", "c02.n2s3k2", "c03.n3s3pk3", "c03.n3afhk3", "c04.n2s3k4", "c04.n3s3pk3", "c05.n3s3pk3", "c06.n2s2k3", "c06.n2sAFk4", "c06.sparse.n2s2k3",
+                   "c07.n2s2k2", "c07.trim.n3ah.a2b3", "c08.single.n2s2k3", "c08.pairs.trim.n2s2k3", "c08.hist.bu.d3", "c08.hist.td.d3", "c09.n2l1", "c10.single.n3l2k3", "c10.pairs.n2l1",
+                   "c11.tree.d4", "c11.fa.d5", "c12.d5", "c14.n3s3pk2", "c15.n3s3pk3", "c15.n3afhk3", "c16.n3l2k4", "c17.v3.base", "c17.v3.apply2", "c17.v3.trees", "c17.v3.allfn", "c18.d3",
+                   "c13.text.len3", "c13.enc.tree.n2s2k3", "c13.enc.fa.n2l2k3", "c19.corpus.small.single", "c19.corpus.smaller.single"]
+_C20_DIFF_QUICK = ["c01.n2s2k2", "c02.n2s3k2", "c03.n3s3pk3", "c05.n3s3pk3", "c06.n2s2k3", "c07.n2s2k2", "c08.single.n2s2k3", "c08.pairs.trim.n2s2k3", "c09.n2l1", "c10.single.n3l2k3", "c10.pairs.n2l1",
+                   "c14.n3s3pk2", "c15.n3s3pk3", "c16.n3l2k4", "c17.v3.apply2", "c04.n2s3k4"]
+PLAN["C20"] = {
+    "level": "exploration",
+    "rule": "the exhaustive workloads of C01-C19 (their small bounds in the quick tier, their quick bounds in the thorough tier) are re-run (1) in a build with AddressSanitizer + "
+            "UndefinedBehaviorSanitizer + _GLIBCXX_ASSERTIONS: any sanitizer report, fatal signal or hang attributed to a single case is a violation (semantic mismatches are NOT counted here, they "
+            "belong to the other properties); (2) in two builds whose automatic variables and fresh heap blocks hold different garbage (-ftrivial-auto-var-init=zero / pattern, MALLOC_PERTURB_=0 / "
+            "165): every observable output of every case (read-backs, dumps, verdicts, relation matrices, MTBDD tables - reported by the glue code) is folded into a digest and the two digests "
+            "must be identical, else some output depends on an indeterminate value; (3) thorough only: a slice under valgrind memcheck. Non-trivial counts are those of the underlying workloads",
+    "assumptions": COMMON_ASSUMPTIONS + ["absence of sanitizer reports on the bounded space, not a proof of memory safety; _GLIBCXX_DEBUG is not used (libvata compares value-initialised std::set iterators, which "
+                                        "debug mode aborts on although every shipped standard library defines it)", "ASLR is disabled (personality) so that address-dependent container orders are the same in both differential builds"],
+    "claim": "No sanitizer report / crash / hang on any execution of the bounded exhaustive workloads in all four encodings, and no observable output that depends on uninitialised memory.",
+    "technique": "the bounded exhaustive enumerations and history searches of the other properties re-executed under ASan/UBSan, plus an auto-var-init / heap-perturbation differential over all observable outputs",
+    "only_classes": ["crash", "hang"],
+    "quick": [("asan", c) for c in _C20_ASAN_QUICK],
+    "thorough": [("asan", c) for c in _C20_ASAN_QUICK + ["c05.n4afk4", "c08.pairs.n2s2k2", "c19.corpus.small.pairs", "c01.n2s2k3", "c01.trim.n2s2.a3b5", "c02.n2s2k3", "c03.n3s3pk4", "c05.n3s3pk4", "c07.n2s3k2", "c08.pairs.trim.n3s3pk3", "c09.n2l2k3", "c10.pairs.n2l2k3",
+                                                           "c10.single.n3l2k4", "c11.tree.d5", "c12.d6", "c14.n3s3pk3", "c16.n3l2k5", "c16.n4l1k4b3", "c18.sat", "c13.text.len4", "c13.edit1", "c19.small.single.n3k2"]],
+    "differential": {"quick": _C20_DIFF_QUICK, "thorough": _C20_DIFF_QUICK + ["c01.n2s2k3", "c02.n2s2k3", "c07.n2s3k2", "c08.pairs.trim.n3s3pk3", "c09.n2l2k3", "c10.pairs.n2l2k3", "c16.n3l2k5"]},
+    "valgrind": {"quick": [], "thorough": ["c07.unimpl", "c08.single.n2s2k3", "c10.pairs.n2l1", "c01.n2s2k2"]},
+    "require": {"all": ["differential_workloads_compared"]},
+    "deadline_s": {"quick": 1500, "thorough": 21600},
 }
